@@ -72,6 +72,27 @@ fn btor2_nodes(k: usize) -> String {
         format!("{} input 1 in{} ; comment {}\n", k + 1, k, k)
     }
 }
+/// every kind of line in rotation (operators with 1..3 operands, constants in three bases, justice with several conditions, symbols, comments)
+fn btor2_all_kinds(k: usize) -> String {
+    let id = k + 10;
+    match k {
+        0 => "1 sort bitvec 8\n2 sort array 1 1\n3 input 1 a\n4 input 1 b\n5 sort bitvec 1\n6 input 5 c\n7 state 1 s\n8 input 5\n9 input 5\n".into(),
+        _ => match k % 12 {
+            0 => format!("{} add 1 3 4 sym{}\n", id, k),
+            1 => format!("{} not 1 3 ; comment {}\n", id, k),
+            2 => format!("{} ite 1 6 3 4\n", id),
+            3 => format!("{} const 1 10101010\n", id),
+            4 => format!("{} constd 1 200\n", id),
+            5 => format!("{} consth 1 ff\n", id),
+            6 => format!("{} justice 3 6 8 9\n", id),
+            7 => format!("{} bad 6 bad{}\n", id, k),
+            8 => format!("{} slice 5 3 0 0\n", id),
+            9 => format!("{} justice 1 6\n", id),
+            10 => format!("{} constraint 6\n", id),
+            _ => format!("{} fair 6\n; standalone comment {}\n", id, k),
+        },
+    }
+}
 fn btor2_comments(k: usize) -> String {
     if k == 0 {
         "1 sort bitvec 1\n".into()
@@ -120,6 +141,7 @@ const STREAMS: &[(&str, &str, fn(usize) -> String)] = &[
     ("gcnf", "clauses", gcnf_clause),
     ("btor2", "input nodes with symbols and comments", btor2_nodes),
     ("btor2", "comment lines and blank lines", btor2_comments),
+    ("btor2", "every kind of line in rotation", btor2_all_kinds),
 ];
 fn one(si: usize, chunk: usize, max_read: usize, total: usize) -> (Result<usize, String>, usize, usize) {
     let (fmt, _, line) = STREAMS[si];
